@@ -60,3 +60,21 @@ Proof. exact demo_cache_pre. Qed.
 Print Assumptions C07_unregister.
 Print Assumptions C07_every_history.
 Print Assumptions C07_cached_query_exact.
+
+(** ** The IDs of cached filters in the code of /repo itself: intPool[uint32] of ecs/pool.go,
+    as translated into [Gen/GoIntPool.v], never hands out an ID that is in use - in every
+    history of Get / Recycle (of an ID in use) / Reset from a new pool. *)
+From Arche Require Import Pure.GoRt Gen.GoIntPool Proofs.IntPoolTie.
+Local Open Scope nat_scope.
+Theorem C07_code_ids_fresh : forall g ds used frees,
+  ip_inv g ds used frees -> (N.of_nat (length ds) + 1 < 2 ^ 32)%N ->
+  exists g' v, intPool_Get g = Ret (g', v) /\ N.to_nat v ∉ used.
+Proof. exact ip_fresh. Qed.
+Theorem C07_code_ids_history : forall ops g ds used frees x,
+  ip_inv g ds used frees -> (N.of_nat (length ds + length ops) + 1 < 2 ^ 32)%N ->
+  irun g used ops = Some x ->
+  exists g' used' outs ds' frees', x = Ret (g', used', outs) /\ ip_inv g' ds' used' frees' /\ NoDup used'.
+Proof. exact ip_history. Qed.
+Theorem C07_code_ids_new : forall inc, (inc < 2 ^ 32)%N -> exists g, go_newIntPool inc = Ret g /\ ip_inv g [] [] [].
+Proof. exact ip_new. Qed.
+Print Assumptions C07_code_ids_history.
